@@ -234,6 +234,13 @@ def check(recipe) -> list[Fail]:
                 continue
             mol.connect(a, a)
             model.bonds.append(frozenset((id(a), id(a))))
+        elif name == "self_bond_foreign":
+            # ... and the same on an atom that is NEW to the molecule: the atom is adopted - once
+            f = newatom(op[1])
+            bond = Bond(f, f)
+            [mol.append_bond, lambda b: mol.append_bonds(b), lambda b: mol.extend_bonds([b]), lambda b: mol.extend_bonds(iter([b]))][op[2] % 4](bond)
+            model.add(f, None, None)
+            model.bonds.append(frozenset((id(f), id(f))))
         elif name == "bond_two_foreign":
             # a bond BOTH of whose ends are new to the molecule: both are adopted (no coordinates / charges given: any row, but a row)
             f1, f2 = newatom(op[1]), newatom(op[1] + 1)
@@ -411,6 +418,7 @@ def _ops(maxlen):
         st.tuples(st.just("view_reuse"), _i, st.floats(-3, 3, width=32)).map(list),
         st.tuples(st.just("bond_two_foreign"), _i, _i).map(list),
         st.tuples(st.just("self_bond"), _i).map(list),
+        st.tuples(st.just("self_bond_foreign"), _i, _i).map(list),
         st.tuples(st.just("set_charge"), _i, st.floats(-2, 2, width=32)).map(list),
         st.just(["scribble_clone"]),
         st.tuples(st.just("sub_del_bond"), st.lists(_i, min_size=2, max_size=5), _i).map(list),
@@ -446,7 +454,7 @@ _ALPHA = [
     ["append_bond_readopt", 0, 0, True], ["append_bond_steal", 1, 1, False],
     ["sub_del_bond", [0, 1, 2], 0],
     ["del_bond", 0], ["remove_substituent", 0, True], ["remove_substituent", 0, False], ["add_implicit_hydrogens"], ["sub_write", [0, 2], 1.5], ["view_reuse", 0, 0.5], ["bond_two_foreign", 4, 1], ["self_bond", 0],
-    ["set_charge", 1, 0.75], ["scribble_clone"],
+    ["set_charge", 1, 0.75], ["scribble_clone"], ["self_bond_foreign", 2, 0],
 ]
 
 
@@ -467,5 +475,5 @@ LEGS = [
     Leg("hist", check, classify, strategy=strat, n={"quick": 4000, "thorough": 40000}, shards={"quick": 16, "thorough": 32},
         rule="Hypothesis-generated edit histories (<=40 ops over add_atom / new_atom / del_atom by object|index|label|Element / connect / append_bond(s) / extend_bonds incl. foreign atoms / del_bond / remove_substituent / add_implicit_hydrogens / substructure write / re-use of a kept substructure view after later edits) on Molecule and Structure, started from empty, generated, cloned and bundled-mol2 molecules; " + _NT),
     Leg("short", check, classify, enumerate=enum_short, exhaustive=True, shards={"quick": 16, "thorough": 64},
-        rule="ALL op sequences of length <=3 (quick) / <=4 (thorough) over a 26-letter op alphabet from a 3-atom start x {Molecule, Structure} x {built, cloned}; " + _NT),
+        rule="ALL op sequences of length <=3 (quick) / <=4 (thorough) over a 27-letter op alphabet from a 3-atom start x {Molecule, Structure} x {built, cloned}; " + _NT),
 ]
